@@ -17,14 +17,16 @@
    return type — so the opaque hypothesis above is replaced by the decidable condition
    `lexically_canonical_of` ("those shapes occur exactly at the function headers"), which
    the harness decides inside Coq (Scope/SpecCheck.v, proved sound) on generated programs.
+   PYTHON (Scope/PySpec.v, Scope/PySpecProofs*.v): the same end-to-end statement for the
+   indentation family (`C01_python`).
    MISSING (validated by the generator of harness/progen.py on every run, not proved):
    that every program of the informally described canonical grammar satisfies
-   `wf_descs` and `lexically_canonical` (the grammar itself is not formalised).
+   `wf_descs` / `py_wf_descs` and the lexical condition (the grammar itself is not formalised).
    Proofs: Scope/SpecProofs{Dyck,Pairing,Fold,Count,}.v, Scope/HeaderProofs{Dfa,Select,}.v. *)
 From Verif Require Import Base Token Lex LexProofs Headers Blocks Pairing Fold ScanFile Spec
   SpecProofsDyck SpecProofsPairing SpecProofsFold SpecProofsCount SpecProofs
   Regex TokEngine HeaderSpec HeaderProofsDfa HeaderProofsSelect HeaderProofs SpecCheck
-  LexShapes ShapeProofs.
+  LexShapes ShapeProofs PySpec PySpecProofsLines PySpecProofs PySpecCheck PyLexical.
 From Coq Require Import Sorted Permutation.
 
 Theorem C01_brace_pipeline_partial : forall (l : language) toks ds,
@@ -114,6 +116,26 @@ Theorem C01_flat : forall (l : language) toks ds,
   scan_file l toks = expected_all code ds ds.
 Proof. exact C01_flat_lexical. Qed.
 
+(* ---- Python: the suite of a definition is the maximal run of following lines indented deeper than its first
+        token (Scope/PySpec.v); end to end with lexical hypotheses only ---- *)
+Theorem C01_python : forall toks ds,
+  let code := filter_tokens false toks in
+  StronglySorted pos_lt code -> filter_nocl_comment_tokens toks = [] ->
+  py_wf_descs code ds -> py_lexically_canonical code ds ->
+  scan_file LPython toks = py_expected_all code ds ds.
+Proof. exact C01_python_lexical. Qed.
+
+(* the indentation-based block extraction returns exactly the suites *)
+Theorem C01_python_blocks : forall code ds,
+  StronglySorted pos_lt code -> nocont code -> Forall (py_shape code) ds ->
+  extract_blocks LPython code (map py_header_of ds) = OK (map py_body_of ds).
+Proof. exact py_extract_blocks_spec. Qed.
+
+Theorem C01_python_hypotheses_decidable : forall ts ds,
+  (py_wf_descs_b ts ds = true -> py_wf_descs ts ds) /\
+  (py_lexically_canonical_b ts ds = true -> py_lexically_canonical ts ds).
+Proof. intros ts ds. split; [apply py_wf_descs_b_sound|apply py_lexically_canonical_b_sound]. Qed.
+
 (* the boolean checkers the harness evaluates are sound for the hypotheses *)
 Theorem C01_hypotheses_decidable : forall ts ds,
   (wf_descs_b ts ds = true -> wf_descs ts ds) /\ (lexically_canonical_b ts ds = true -> lexically_canonical ts ds).
@@ -128,6 +150,9 @@ Print Assumptions C01_hypotheses_decidable.
 Print Assumptions C01_headers_lexical.
 Print Assumptions C01_brace.
 Print Assumptions C01_flat.
+Print Assumptions C01_python.
+Print Assumptions C01_python_blocks.
+Print Assumptions C01_python_hypotheses_decidable.
 Print Assumptions C01_c_pipeline_partial.
 Print Assumptions C01_blocks_are_dyck.
 Print Assumptions C01_pairing.
